@@ -511,7 +511,109 @@ pub fn prng_boundary_hunt(seed: u64, draws_wide: u64, stats: &mut Stats) -> Vec<
     found
 }
 
+/// Extreme-word hunt: bounded draws go wrong when the *underlying PRNG word* is extremal (all ones,
+/// zero, the sign boundary) - a 2^-32 event per draw whatever the span, out of reach of brute force
+/// over many spans. The simulator owns the PRNG seam, so it looks for such words directly: it scans
+/// `words` words of seeded ChaCha8 streams (cheap: no draw logic involved), notes every position
+/// holding one of 8 extremal values, and then executes every bounded method over a grid of spans on
+/// a generator positioned exactly there (and one word earlier, for draws that consume two words).
+pub fn extreme_word_hunt(seed: u64, words: u64, stats: &mut Stats) -> Vec<Found2> {
+    use rand::RngCore;
+    const EXTREME: [u32; 8] = [0, 1, 0x7fff_ffff, 0x8000_0000, 0x8000_0001, 0xffff_fffd, 0xffff_fffe, 0xffff_ffff];
+    let nt = crate::engine::n_threads() as u64;
+    let per = words / nt;
+    let hits: Vec<(u64, u64, u32)> = std::thread::scope(|s| {
+        let hs: Vec<_> = (0..nt)
+            .map(|t| {
+                s.spawn(move || {
+                    let sd = desc::derive_seed(seed, "C18.words", t);
+                    let mut rng = ChaCha8Rng::seed_from_u64(sd);
+                    let mut out = vec![];
+                    let mut buf = [0u8; 4096];
+                    let mut i = 0u64;
+                    while i < per {
+                        rng.fill_bytes(&mut buf);
+                        for (k, c) in buf.chunks_exact(4).enumerate() {
+                            let w = u32::from_le_bytes([c[0], c[1], c[2], c[3]]);
+                            if w <= 1 || w >= 0xffff_fffd || (0x7fff_ffff..=0x8000_0001).contains(&w) {
+                                out.push((sd, i + k as u64, w));
+                            }
+                        }
+                        i += 1024;
+                        if i % (1 << 26) == 0 {
+                            crate::engine::tick();
+                        }
+                    }
+                    out
+                })
+            })
+            .collect();
+        hs.into_iter().flat_map(|h| h.join().unwrap()).collect()
+    });
+    stats.add("prng.words_scanned_for_extreme_values", per * nt);
+    for v in EXTREME {
+        stats.add(&format!("probe.prng_word_0x{:08x}_positions", v), hits.iter().filter(|h| h.2 == v).count() as u64);
+    }
+    // the draws executed at each position
+    let mut draws: Vec<Draw> = vec![Draw::AsciiChar, Draw::Bool, Draw::U8, Draw::U16, Draw::U32, Draw::I32, Draw::I64, Draw::F64];
+    for n in [1usize, 2, 3, 5, 7, 10, 31, 32, 33, 95, 100, 255, 256, 257, 1000, 19_061, 65_535, 65_536, 65_537, (1 << 31) - 1, 1 << 31, (1 << 31) + 1, (1 << 32) - 1, 1 << 32, (1 << 32) + 1, 1 << 63, usize::MAX] {
+        draws.push(Draw::ChooseIndex(n));
+        draws.push(Draw::Range(0, n));
+        if n < usize::MAX - 7 {
+            draws.push(Draw::Range(7, 7 + n));
+        }
+    }
+    let mut found = vec![];
+    for (sd, pos, w) in &hits {
+        for back in [0u64, 1] {
+            if *pos < back {
+                continue;
+            }
+            for d in &draws {
+                let mut rng = ChaCha8Rng::seed_from_u64(*sd);
+                rng.set_word_pos((*pos - back) as u128);
+                let mut src = GenerationSource::Rand(&mut rng);
+                stats.evaluations += 1;
+                let r = std::panic::catch_unwind(std::panic::AssertUnwindSafe(|| do_draw(&mut src, d)));
+                let err = match r {
+                    Ok(Ok(_)) => None,
+                    Ok(Err(e)) => Some(e),
+                    Err(_) => Some(format!("panic: {}", crate::exec::take_panic())),
+                };
+                if let Some(e) = err {
+                    if found.is_empty() {
+                        let class = if e.starts_with("panic") { format!("panic({})", d.name()) } else { format!("out-of-range({})", d.name()) };
+                        found.push(Found2 {
+                            index: *pos,
+                            case: json!({"hunt": {"prng_seed": sd.to_string(), "word_pos": (*pos - back).to_string(), "method": "at-word", "draw": d.to_json()}}),
+                            violation: Violation::new("C18", class, format!("PRNG source positioned at word {} of ChaCha8Rng::seed_from_u64({}) (next words include 0x{:08x}): {}", pos - back, sd, w, e)),
+                        });
+                    }
+                }
+            }
+        }
+    }
+    found
+}
+
+fn replay_at_word(h: &Value) -> Vec<Violation> {
+    let g = |k: &str| h[k].as_str().and_then(|s| s.parse::<u64>().ok()).unwrap_or(0);
+    let Some(d) = Draw::from_json(&h["draw"]) else { return vec![] };
+    let mut rng = ChaCha8Rng::seed_from_u64(g("prng_seed"));
+    rng.set_word_pos(g("word_pos") as u128);
+    let mut src = GenerationSource::Rand(&mut rng);
+    let r = std::panic::catch_unwind(std::panic::AssertUnwindSafe(|| do_draw(&mut src, &d)));
+    match r {
+        Ok(Ok(_)) => vec![],
+        Ok(Err(e)) => vec![Violation::new("C18", format!("out-of-range({})", d.name()), e)],
+        Err(_) => vec![Violation::new("C18", format!("panic({})", d.name()), crate::exec::take_panic())],
+    }
+}
+
 fn replay_hunt(h: &Value) -> Vec<Violation> {
+    if h["method"].as_str() == Some("at-word") {
+        return replay_at_word(h);
+    }
     let g = |k: &str| h[k].as_str().and_then(|s| s.parse::<u64>().ok()).unwrap_or(0);
     let (sd, n, a, b) = (g("prng_seed"), g("draws_before"), g("a") as usize, g("b") as usize);
     let method = h["method"].as_str().unwrap_or("gen_range").to_string();
